@@ -254,6 +254,7 @@ OPS = {
     "eigh_vals": lambda t, u: np.linalg.eigh(_arr(t), UPLO=u if isinstance(u, str) else "L")[0],
     "eigh_vecs": lambda t, u: np.linalg.eigh(_arr(t), UPLO=u if isinstance(u, str) else "L")[1],
     "cdist": _cdist,
+    "matnorm2": lambda t: np.asarray(np.linalg.norm(_arr(t), 2)), "matnorm2_r": lambda t: float(np.linalg.norm(_arr(t), 2)),
     "topk_vals": lambda t, k, lg: _topk(t, k, bool(lg), "vals"), "topk_idx": lambda t, k, lg: _topk(t, k, bool(lg), "idx"),
     "sort_vals": lambda t, d, ds: _sort(t, d, bool(ds), "vals"), "sort_idx": lambda t, d, ds: _sort(t, d, bool(ds), "idx"),
     "argmin": lambda t: np.asarray(np.argmin(_arr(t))), "argmin_i": lambda t: int(np.argmin(_arr(t))),
